@@ -1,6 +1,7 @@
 (* C05 - Gamma is 1 - observed/expected over the requested chance samples.  Proofs in theories/Gamma/{GammaRunProofs,GammaKProofs}.v. *)
-From Coq Require Import List Arith ZArith QArith Qround Bool.
+From Coq Require Import List Arith ZArith QArith Qround Bool String.
 From PGA Require Import Gamma.GammaK Gamma.GammaKProofs Gamma.GammaRun Gamma.GammaRunProofs Align.Tuples Align.Cover Align.Inst.
+From PGAgen Require Import ConstGen.
 Import ListNotations.
 
 (* the result holds exactly max(n_samples, N_required) chance alignments; none beyond n_samples when no precision level is given *)
@@ -29,6 +30,14 @@ Theorem C05_identical_annotations_zero_disorder I m cs : (1 <= nann I)%nat -> (1
   Forall (wf_tuple (sz I)) cs -> incl (diag I m) cs -> (forall t, In t cs -> (0 <= ua_sum I t)%Z) ->
   exists l, opt_partition I cs = Some (0%Z, l).
 Proof. exact (identical_optimum_zero I m cs). Qed.
+
+(* the constants of the CURRENT source (regenerated on every run): the confidence factor is positive and every named precision level is a
+   percentage strictly between 0 and 1, as compute_gamma asserts *)
+Theorem C05_source_constants_valid :
+  Qle_bool confidence 0 = false /\
+  forallb (fun kv => negb (Qle_bool (snd kv) 0) && negb (Qle_bool 1 (snd kv))) precision_levels = true /\
+  map fst precision_levels = ["high"; "medium"; "low"]%string.
+Proof. vm_compute. repeat split. Qed.
 
 Example C05_example :
   (* chance disorders 1, 2, 3: mean 2, variance 2/3; conf 2, precision 1/2: (2*2*(2/3))/(4*(1/4)) = 8/3 -> 3 samples required *)
